@@ -14,13 +14,13 @@ ASSUMPTIONS = [
     "serialize hooks run traced; and build_json_schema with a symbolic ref_prefix string (len <= 4)",
     "metaschema validity by the real jsonschema package's bundled Draft 2020-12 metaschema",
 ]
-KINDS = ["defaults", "nested", "selfref", "generic", "ntfield", "ntfwd", "deser_only", "ser_fn", "ann_meta", "nonefield", "ann_generic", "plain", "list_int", "dict_str_date", "opt_union", "tuple", "nt", "color", "any"]
+KINDS = ["defaults", "nested", "selfref", "generic", "ntfield", "ntfwd", "deser_only", "ser_fn", "ann_meta", "nonefield", "ann_generic", "slots", "aliases", "plain", "list_int", "dict_str_date", "opt_union", "tuple", "nt", "color", "any"]
 
 
 def harnesses(tier, seed):
     hs = []
     s = Schema("x", "int", "")
-    for k in (KINDS if tier != "quick" else ["defaults", "nested", "selfref", "ntfield", "ntfwd", "deser_only", "ser_fn", "ann_meta", "ann_generic"]):
+    for k in (KINDS if tier != "quick" else ["defaults", "nested", "selfref", "ntfield", "ntfwd", "deser_only", "ser_fn", "ann_meta", "ann_generic", "slots", "aliases"]):
         kw = "kind=%r" % k
         hs.append(gen.custom_harness("C20", "c20", Schema("cube_" + k, "int", ""), "cube", kw, kw))
     pool = (("nested", "generic", "plain", "list_int", "nt", "defaults", "nonefield") if tier != "quick"
